@@ -14,7 +14,7 @@ LEVEL_TEXT = {
     'C04': ('exploration', '5/C04', 'Factors read through state_dict() after every operation are compared with a float64 recurrence recomputed from raw activations with F.unfold; symmetry, PSD, dtype and immutability across eval / non-update steps.'),
     'C05': ('exploration', '5/C05', 'Lock-step comparison with the RefKFAC state machine over seeded histories (train/eval/reset/scheduler/checkpoint round-trips) with constant, callable and scheduled hyper-parameters.'),
     'C07': ('exploration', '5/C07', 'Per step and rank, the scale between final gradients and the unclipped reference solution is compared with the clip formula, the KL bound, positivity, kl_clip=None and cross-rank agreement.'),
-    'C09': ('fault_enumeration', '5/C09', 'Crash-restart simulation: checkpoints at drawn step boundaries, crashes at boundaries and mid-operation, restart into fresh objects from the serialized state; compared with the restarted reference and a third uninterrupted simulation.'),
+    'C09': ('fault_enumeration', '5/C09', 'Crash-restart simulation: checkpoints at drawn step boundaries, crashes at boundaries and mid-operation, restart into fresh objects (constructed with the saved or with other constants) from the serialized state, repeated rollback to one in-memory checkpoint; compared with the restarted reference and a third uninterrupted simulation.'),
     'C10': ('exploration', '5/C10', 'Before/after snapshots around every step and eval pass on every rank plus a K-FAC-free twin model fed the same batches, over a zoo of module trees.'),
     'C13': ('exploration', '5/C13', 'Per step: object-graph walk of tensors held per layer, memory_usage(), kfac-tagged transport log (kind, group, elements) and decomposition counters against what the strategy implies.'),
     'C19': ('exploration', '5/C19', 'Scheduler steps inside simulated histories compared with a reference mirror; constructor refusal; direct sweep of exp_decay_factor_averaging.'),
@@ -64,7 +64,7 @@ def main() -> None:
         'setup_cmd': '/venv/bin/python -B tools/setup_check.py',
         'hooks': {
             'guard': 'KFAC_PYTORCH_VERIF',
-            'enable': 'no source hooks: the simulator patches torch.distributed / torch.futures.Future / time / torch.save at module-attribute seams at run time',
+            'enable': 'no source hooks: the simulator patches torch.distributed / torch.futures.Future / kfac.tracing.time / torch.save / torch.load / os.environ (launcher variables per simulated rank) at module-attribute seams at run time',
             'baseline_off_cmd': 'cd /repo && /venv/bin/python -m pytest -ra -q -p no:cacheprovider --timeout=900 --continue-on-collection-errors',
             'source_commits': [],
             'add_only': True,
